@@ -946,6 +946,24 @@ func ruleR2_9(w *World, r *Report) {
 					}
 				}
 			}
+			// (b') the same loop written out here: under `slack == 0`, a loop left before the return
+			for _, h := range loopHeaders(fn) {
+				body := loopBlocks(fn, h)
+				if body[ret.Block()] || !h.Dominates(ret.Block()) {
+					continue
+				}
+				zero := false
+				for _, ec := range dominatingConds(h) {
+					if bo, ok := ec.Cond.(*ssa.BinOp); ok && ec.True && bo.Op == token.EQL {
+						if k, ok := constInt(bo.Y); ok && k == 0 {
+							zero = true
+						}
+					}
+				}
+				if zero && propagatesAllUnboundIn(w, fn, clause, body) {
+					return
+				}
+			}
 			bad = append(bad, "true is returned at "+w.InstrPos(ret)+" although the constraint was not found satisfied, not everything unbound was propagated and the watches were not updated")
 		})
 		if len(bad) > 0 {
@@ -965,13 +983,19 @@ func propagatesAllUnbound(w *World, fn *ssa.Function) bool {
 	if len(fn.Params) != 3 {
 		return false
 	}
+	return propagatesAllUnboundIn(w, fn, fn.Params[1], nil)
+}
+
+// propagatesAllUnboundIn: the same, for the clause value cl and the binding calls in the given blocks of fn (all of
+// them when within is nil): the loop written out in the propagation function itself.
+func propagatesAllUnboundIn(w *World, fn *ssa.Function, cl ssa.Value, within map[*ssa.BasicBlock]bool) bool {
 	eff := w.effects()
 	getter := w.Func("solver", "Clause.Get")
 	lenFn := w.Func("solver", "Clause.Len")
 	ok := false
 	for _, ci := range callsIn(fn) {
 		c, isCall := ci.(*ssa.Call)
-		if !isCall || !inLoop(fn, c.Block()) {
+		if !isCall || !inLoop(fn, c.Block()) || (within != nil && !within[c.Block()]) {
 			continue
 		}
 		binds := false
@@ -986,12 +1010,12 @@ func propagatesAllUnbound(w *World, fn *ssa.Function) bool {
 		// the literal argument is clause.Get(i) with i full range
 		for _, a := range c.Call.Args {
 			g, isG := a.(*ssa.Call)
-			if !isG || !w.staticCalleeIs(g, getter) || g.Call.Args[0] != ssa.Value(fn.Params[1]) {
+			if !isG || !w.staticCalleeIs(g, getter) || g.Call.Args[0] != cl {
 				continue
 			}
 			if fullRangeIndex(g.Call.Args[1], func(b ssa.Value) bool {
 				lc, isL := b.(*ssa.Call)
-				return isL && w.staticCalleeIs(lc, lenFn) && lc.Call.Args[0] == ssa.Value(fn.Params[1])
+				return isL && w.staticCalleeIs(lc, lenFn) && lc.Call.Args[0] == cl
 			}) {
 				ok = true
 			}
